@@ -71,6 +71,13 @@ fn candidates(n: u16, rng: &mut Rng, thorough: bool) -> Vec<String> {
         out.push(format!("0{dec}"));
         out.push(format!("000{dec}"));
         out.push(format!("{}{dec}", "0".repeat(80)));
+        // leading zeros mixed with separators
+        for lead in ["0_", "0_0", "00_", "_0_0", "0__00_"] {
+            out.push(format!("{lead}{dec}"));
+        }
+        for u in underscore_variants(&format!("00{dec}"), rng) {
+            out.push(u);
+        }
         // binary: exactly N digits, and off-by-one lengths
         if x.fits(nb) {
             let b = x.to_bin(nb);
